@@ -2,5 +2,7 @@ import Gkv.Model.Basic
 import Gkv.Model.Treap
 import Gkv.Model.Codec
 import Gkv.Model.Store
+import Gkv.Model.Spec
 import Gkv.Model.Blocks
 import Gkv.Model.World
+import Gkv.Proofs.Split
